@@ -56,10 +56,22 @@ struct StateProp : Prop {
 		}
 		cfg::install(plan, w, r);
 		api::Ids ids = api::collect(w);
-		J se = cfg::normal_session(0, r.chance(700) ? 0 : (int) r.range(5, 40));
+		// C07, one run in twelve: low-level drive commands with a fast auto-flush and a calling thread that is descheduled at lock points - the message may
+		// be flushed and acknowledged while the caller is still inside bidib_send_cs_drive; the acknowledgement must survive (fix 9872ba0)
+		bool lldrive = !is_c08 && !w.trains.empty() && r.chance(80);
+		J se = cfg::normal_session(0, lldrive ? (int) r.range(1, 3) : r.chance(700) ? 0 : (int) r.range(5, 40));
 		J phs = J::arr();
 		{ J ph = J::obj(); ph.set("check", true); J post = J::arr(); post.push("quiesce"); ph.set("post", post); phs.push(ph); }
 		int nsteps = (int) r.range(3, thorough ? 40 : 20);
+		if (lldrive) {
+			nsteps = 0;
+			for (int i = 0, n = (int) r.range(3, 7); i < n; i++) {
+				const cfg::Train &t = w.trains[r.below(w.trains.size())];
+				J op = pc::ll_op(r, *cat::find("cs_drive"), w.boards[0].addr);
+				auto a = unhex(op.gets("a")); a[0] = t.addrl; a[1] = t.addrh; a[2] = 3; a[3] = (uint8_t) (1 | (r.below(32) << 1)); a[5] &= 0x1F; op.set("a", hex_of(a));
+				J ph = J::obj(); J pre = J::arr(); pre.push(op); ph.set("pre", pre); ph.set("check", true); J post = J::arr(); post.push("quiesce"); ph.set("post", post); phs.push(ph);
+			}
+		}
 		int maxt = 1;
 		struct N { std::vector<uint8_t> addr; bool present; bool iface; };
 		std::vector<N> ns; for (auto &b : w.boards) ns.push_back({b.addr, b.present, b.is_iface()});
@@ -196,6 +208,7 @@ struct StateProp : Prop {
 		J sc = sched_json(r, tier, maxt, true); cfg::starve_after_startup(sc, r);
 		// (dense storms are about what happens INSIDE a getter while the receiver rewrites a list: preemption at call boundaries in every such run)
 		if (any_dense && sc.geti("fn_yield") < 40) sc.set("fn_yield", (int) r.range(40, 200));
+		if (lldrive) { static const int mx[] = {12000, 30000}; sc.set("preempt_permille", (int) r.range(35, 60)); sc.set("preempt_max_us", mx[r.below(2)]); }
 		plan.set("sched", sc);
 		return plan;
 	}
